@@ -722,6 +722,7 @@ func streamDecode(o *Out, r *Rng, tier string) {
 			apiSweep(o, x, others, fmt.Sprintf("node#%d(type %d)", i, int(x.Type())))
 		}
 	}
+	safe("getter discipline", nil, func() string { getterDiscipline(o); return "" })
 	for _, w := range decodeCorpus {
 		one([]byte(w), true)
 	}
@@ -960,3 +961,80 @@ func streamLex(o *Out, r *Rng, tier string) {
 
 // coerce is Go's own coercion: string → []rune → string.
 func coerce(s string) string { return string([]rune(s)) }
+
+// getterDiscipline: C02's clause on the typed getters, error KINDS included — on a nil node every getter reports not-parsed; on a
+// node of its own type it succeeds (an out-of-range number literal aside); on a node of any other type it reports wrong-type; and
+// the Must… variant panics exactly when the getter reports an error, with that same error. Receivers: nil, and one node of every
+// type, parsed and constructed.
+func getterDiscipline(o *Out) {
+	var nilNode *ajson.Node
+	doc := ajson.Must(ajson.Unmarshal([]byte(`{"n":null,"i":1,"s":"x","b":true,"a":[1],"o":{"k":1}}`)))
+	recv := []*ajson.Node{nilNode, doc.MustKey("n"), doc.MustKey("i"), doc.MustKey("s"), doc.MustKey("b"), doc.MustKey("a"), doc,
+		ajson.NullNode(""), ajson.NumericNode("", 2), ajson.StringNode("", "y"), ajson.BoolNode("", false), ajson.ArrayNode("", nil), ajson.ObjectNode("", nil)}
+	type getter struct {
+		name string
+		typ  ajson.NodeType
+		get  func(n *ajson.Node) error
+		must func(n *ajson.Node)
+	}
+	getters := []getter{
+		{"Null", ajson.Null, func(n *ajson.Node) error { _, e := n.GetNull(); return e }, func(n *ajson.Node) { n.MustNull() }},
+		{"Numeric", ajson.Numeric, func(n *ajson.Node) error { _, e := n.GetNumeric(); return e }, func(n *ajson.Node) { n.MustNumeric() }},
+		{"String", ajson.String, func(n *ajson.Node) error { _, e := n.GetString(); return e }, func(n *ajson.Node) { n.MustString() }},
+		{"Bool", ajson.Bool, func(n *ajson.Node) error { _, e := n.GetBool(); return e }, func(n *ajson.Node) { n.MustBool() }},
+		{"Array", ajson.Array, func(n *ajson.Node) error { _, e := n.GetArray(); return e }, func(n *ajson.Node) { n.MustArray() }},
+		{"Object", ajson.Object, func(n *ajson.Node) error { _, e := n.GetObject(); return e }, func(n *ajson.Node) { n.MustObject() }},
+	}
+	kindOf := func(e error) string {
+		if e == nil {
+			return "ok"
+		}
+		if ae, ok := e.(ajson.Error); ok {
+			switch ae.Type {
+			case ajson.Unparsed:
+				return "not-parsed"
+			case ajson.WrongType:
+				return "wrong-type"
+			}
+			return fmt.Sprintf("error-kind-%d", int(ae.Type))
+		}
+		return "foreign-error"
+	}
+	for i, n := range recv {
+		for _, g := range getters {
+			o.Check("C02", "getter-discipline")
+			want := "wrong-type"
+			where := fmt.Sprintf("receiver #%d", i)
+			if n == nil {
+				want = "not-parsed"
+				where = "(*Node)(nil)"
+			} else if n.Type() == g.typ {
+				want = "ok"
+			}
+			err := g.get(n)
+			if got := kindOf(err); got != want {
+				o.Fail("C02", "getter-discipline", fmt.Sprintf("Get%s on %s (type %v)", g.name, where, typeName(n)), where+".Get"+g.name, want, got)
+			}
+			var pv interface{}
+			func() {
+				defer func() { pv = recover() }()
+				g.must(n)
+			}()
+			switch {
+			case (pv != nil) != (err != nil):
+				o.Fail("C02", "getter-discipline", fmt.Sprintf("Must%s panics=%v but Get%s error=%v on %s", g.name, pv != nil, g.name, err, where), where+".Must"+g.name, "panic exactly when the getter reports an error", fmt.Sprint(pv))
+			case pv != nil:
+				if pe, ok := pv.(error); !ok || kindOf(pe) != want {
+					o.Fail("C02", "getter-discipline", fmt.Sprintf("Must%s on %s panics with another error than Get%s reports", g.name, where, g.name), where+".Must"+g.name, fmt.Sprint(err), fmt.Sprint(pv))
+				}
+			}
+		}
+	}
+}
+
+func typeName(n *ajson.Node) string {
+	if n == nil {
+		return "nil"
+	}
+	return fmt.Sprint(int(n.Type()))
+}
